@@ -177,18 +177,18 @@ func C12(run *report.Run) {
 	}
 	shards := 16
 	type outT struct {
-		Runs        int64                        `json:"runs"`
-		Points      int64                        `json:"points"`
-		Sites       map[string]int64             `json:"sites"`
-		Violations  []json.RawMessage            `json:"violations"`
-		Base        map[string]map[string]string `json:"base"`
-		BaseOutcome map[string]string            `json:"baseOutcome"`
-		MaxKeys     int                          `json:"maxKeys"`
-		Reduced     int64                        `json:"reduced"`
-		Bound2Runs      int64 `json:"bound2Runs"`
-		Bound2UnitsDone int64 `json:"bound2UnitsDone"`
-		Bound2Units     int64 `json:"bound2Units"`
-		Bound2Capped    bool  `json:"bound2Capped"`
+		Runs            int64                        `json:"runs"`
+		Points          int64                        `json:"points"`
+		Sites           map[string]int64             `json:"sites"`
+		Violations      []json.RawMessage            `json:"violations"`
+		Base            map[string]map[string]string `json:"base"`
+		BaseOutcome     map[string]string            `json:"baseOutcome"`
+		MaxKeys         int                          `json:"maxKeys"`
+		Reduced         int64                        `json:"reduced"`
+		Bound2Runs      int64                        `json:"bound2Runs"`
+		Bound2UnitsDone int64                        `json:"bound2UnitsDone"`
+		Bound2Units     int64                        `json:"bound2Units"`
+		Bound2Capped    bool                         `json:"bound2Capped"`
 	}
 	outs := make([]outT, shards)
 	var wg sync.WaitGroup
